@@ -3,8 +3,9 @@
 export GOFLAGS=-mod=mod GOPROXY=off GOSUMDB=off GOTOOLCHAIN=local
 cd /verif
 mkdir -p build/bin evidence replays
-cp /repo/go.sum go.sum
-python3 tools/mkoverlay.py > build/overlay.json || exit 1
+cmp -s /repo/go.sum go.sum || cp /repo/go.sum go.sum
+python3 tools/mkoverlay.py > build/overlay.tmp.json || exit 1
+mv build/overlay.tmp.json build/overlay.json
 rc=0
 for d in checks/*/; do
   n=$(basename "$d")
